@@ -285,6 +285,7 @@ type runner struct {
 	cl       *cluster
 	t0       time.Time
 	stop     int32
+	planHash string
 	leader   int32   // monitor's current view, -1 unknown
 	inflight []int32 // writes sent to node i and not yet answered
 
@@ -335,6 +336,7 @@ func (r *runner) monitor(done <-chan struct{}, wg *sync.WaitGroup) {
 				}
 				n.mu.Unlock()
 				r.event("died", i, r.now(), r.now(), "process exited on its own")
+				diag("history with plan %s: replica %d exited on its own (%v); log tail:\n%s", r.planHash, i, n.exitErr, r.cl.logTail(i, 6000))
 				continue
 			}
 			st, ok := r.cl.status(i)
@@ -733,7 +735,28 @@ func bucket(n int, edges ...int) string {
 func inconclusive(reason string, detail string) {
 	rec.Count("inconclusive", 1)
 	rec.Count("inconclusive_"+reason, 1)
-	fmt.Printf("C04-NOTE inconclusive history (%s): %s\n", reason, detail)
+	diag("inconclusive history (%s): %s", reason, detail)
+}
+
+// diag keeps what a maintainer needs to look into histories that were skipped (or into a
+// replica that exited on its own): stdout, and replays/C04/notes-<tier>-<shard>-seed<n>.log,
+// because the driver keeps the output of failing shards only.
+var diagOnce sync.Once
+
+func diag(format string, a ...interface{}) {
+	msg := fmt.Sprintf(format, a...)
+	fmt.Printf("C04-NOTE %s\n", msg)
+	root := os.Getenv("VERIF_ROOT")
+	if root == "" || os.Getenv("VERIF_SHARD") == "" {
+		return
+	}
+	fn := filepath.Join(root, "replays", "C04", fmt.Sprintf("notes-%s-%s-seed%s.log", os.Getenv("VERIF_TIER"), os.Getenv("VERIF_SHARD"), os.Getenv("VERIF_SEED")))
+	flags := os.O_CREATE | os.O_WRONLY | os.O_APPEND
+	diagOnce.Do(func() { flags = os.O_CREATE | os.O_WRONLY | os.O_TRUNC })
+	if f, err := os.OpenFile(fn, flags, 0644); err == nil {
+		fmt.Fprintf(f, "%s %s\n\n", time.Now().Format("15:04:05"), msg)
+		f.Close()
+	}
 }
 
 func runHistory(t *rapid.T, outer *testing.T) {
@@ -787,7 +810,7 @@ func runHistory(t *rapid.T, outer *testing.T) {
 		time.Sleep(50 * time.Millisecond)
 	}
 
-	r := &runner{p: p, cl: cl, t0: time.Now(), leader: -1, inflight: make([]int32, p.Opts.N), seenLead: map[[2]uint64]bool{}, lastSnap: make([]uint64, p.Opts.N)}
+	r := &runner{p: p, cl: cl, t0: time.Now(), planHash: fmt.Sprintf("%016x", planHash), leader: -1, inflight: make([]int32, p.Opts.N), seenLead: map[[2]uint64]bool{}, lastSnap: make([]uint64, p.Opts.N)}
 	monDone := make(chan struct{})
 	var monWG sync.WaitGroup
 	monWG.Add(1)
@@ -866,7 +889,10 @@ func runHistory(t *rapid.T, outer *testing.T) {
 		return
 	}
 	if len(v.Inconclusive) > 0 {
-		inconclusive("checker", strings.Join(v.Inconclusive, "; "))
+		inconclusive("checker", fmt.Sprintf("plan %s: %s", h.PlanHash, strings.Join(v.Inconclusive, "; ")))
+		if os.Getenv("C04_KEEP_INCONCLUSIVE") != "" {
+			saveHistory(h, "inconclusive")
+		}
 		return
 	}
 	rec.Record(planHash, nontrivial, labels, func() interface{} { return sampleOf(h, p, labels) })
@@ -882,6 +908,11 @@ func saveHistory(h *history, prefix string) string {
 		shard = "local"
 	}
 	fn := fmt.Sprintf("%s-%s-%d.json", prefix, shard, n)
+	if d := os.Getenv("C04_KEEP_INCONCLUSIVE"); d != "" && prefix != "violation" {
+		if st, err := os.Stat(d); err == nil && st.IsDir() {
+			fn = filepath.Join(d, fn)
+		}
+	}
 	b, _ := json.MarshalIndent(h, "", " ")
 	if err := os.WriteFile(fn, b, 0644); err != nil {
 		fmt.Printf("HARNESS: cannot write %s: %v\n", fn, err)
